@@ -147,9 +147,6 @@ theorem pend_isEmpty_gen (e : Bytes) : ∀ buf, (pend buf e).isEmpty = if e.isEm
         cases buf <;> rfl
       | cons d e' => simp [endsInNl, List.getLast?_cons_cons]
 
-/-- the `^D`s tbot sends after the data `e`: two unless `e` is empty or ends with a line ending -/
-def fin (e : Bytes) : Bytes := (if !(e.isEmpty || endsInNl e) then [EOT] else []) ++ [EOT]
-
 /-- **tbot's test for the second `^D` is the tty's**: after typing `e` (no EOF character) and
     `fin e`, the reader has received exactly `e` (CR read as LF) followed by end of file, and what
     was typed after that is left for the shell. -/
